@@ -400,9 +400,26 @@ fn low_descriptor_slice(ctx: &mut Ctx) {
     lowfd::remove(ctx);
 }
 
+/// An entry removed by an earlier action before the test looks at it: the diagnostic goes to standard
+/// error, standard output lists exactly the entries the test selects.
+fn removed_entry_slice(ctx: &mut Ctx) {
+    let cases: Vec<(Vec<&str>, bool, Vec<&str>)> = vec![(vec!["-size", "-1000k"], false, vec!["ec/d", "ec/d/keep"]), (vec!["-links", "-100"], false, vec!["ec/d", "ec/d/keep"]), (vec!["-mmin", "-99999999"], false, vec!["ec/d", "ec/d/keep"]), (vec!["-mtime", "-99999"], true, vec!["ec/d", "ec/d/keep"]), (vec!["-uid", "-1"], false, vec!["ec/d", "ec/d/keep"]), (vec!["-inum", "+0"], false, vec!["ec/d", "ec/d/keep"])];
+    for (test, victim_is_dir, expect) in cases {
+        ctx.rep.evaluations += 1;
+        ctx.rep.nontrivial += 1;
+        ctx.rep.count("removed_entry_cases", 1);
+        if let Err(d) = crate::props::labelled::removed_entry_case(&ctx.sbx.clone(), &test, victim_is_dir, &expect) {
+            ctx.rep.violation(&format!("C14 {} on an entry that was removed just before: standard output is not exactly the selected entries (a diagnostic belongs on standard error)", test[0]), d, json!({"prop":"C14","removed_entry":true}));
+        }
+    }
+}
+
 fn run(ctx: &mut Ctx) {
     if ctx.shard == 3 % ctx.nshards {
         low_descriptor_slice(ctx);
+    }
+    if ctx.shard == 8 % ctx.nshards {
+        removed_entry_slice(ctx);
     }
     if let Err(e) = build(ctx) {
         ctx.rep.machinery(format!("sandbox: {e}"));
@@ -431,6 +448,10 @@ fn run(ctx: &mut Ctx) {
 }
 
 fn replay(case: &Value, ctx: &mut Ctx) -> Option<String> {
+    if case["removed_entry"] == true {
+        removed_entry_slice(ctx);
+        return ctx.rep.violations.keys().next().cloned();
+    }
     if case["low_descriptor"] == true {
         low_descriptor_slice(ctx);
         return ctx.rep.violations.keys().next().cloned();
